@@ -6,6 +6,7 @@ import Frp.Engines.Release
 import Frp.Engines.Udp
 import Frp.Engines.Conf
 import Frp.Engines.Nat
+import Frp.Engines.NatPunch
 import Frp.Engines.Wait
 import Frp.Engines.Plugin
 import Frp.Engines.Client
@@ -33,6 +34,7 @@ def all : List (String × Engine) :=
   , ("udp", udp)
   , ("conf", conf)
   , ("nat", nat)
+  , ("punch", punch)
   , ("wait", wait)
   , ("plugin", plugin)
   , ("client", client)
